@@ -107,8 +107,9 @@ Emit == /\ IsEvent("emit") /\ "bad" \notin DOMAIN Ev
            /\ (len > 0 /\ On("C04")) => /\ off + len <= maxEdge[e]
                                         /\ (mss[p] >= 0 => len <= mss[p])
                                         /\ \/ Ev.iplen <= cfg.mtu
-                                           \* known finding F14: the SACK option is not deducted from the payload budget
-                                           \/ (Fld(cfg, "kf_f14", FALSE) /\ Len(Ev.sack) > 0 /\ Ev.iplen - (8 * Len(Ev.sack) + 4) <= cfg.mtu)
+                                           \* known finding F14: on a path with no room for payload next to a full option area
+                                           \* (MTU - IP header - 20 - 40 <= 0: IPv4 MTU <= 80, IPv6 MTU <= 100) the budget is clamped to 1 byte and the SACK option comes on top
+                                           \/ (Fld(cfg, "kf_f14", FALSE) /\ cfg.mtu <= (IF cfg.v = 6 THEN 100 ELSE 80) /\ len = 1 /\ Len(Ev.sack) > 0 /\ Ev.iplen - (8 * Len(Ev.sack) + 4) <= cfg.mtu)
            \* ---- C04: the advertised right edge never moves left (RST carries no window)
            /\ (ack /\ ~rst /\ ~syn /\ On("C04") /\ advEdge[e] >= 0) =>
                   \/ edge >= advEdge[e]
